@@ -17,6 +17,7 @@ pub mod stream_ctl;
 pub mod svs;
 pub mod ws_common;
 pub mod ws_lifecycle;
+pub mod ws_limits;
 pub mod ws_offreader;
 
 pub fn all() -> &'static [Family] {
@@ -36,6 +37,7 @@ pub fn all() -> &'static [Family] {
         v.extend(async_hostile::families());
         v.extend(ws_offreader::families());
         v.extend(ws_lifecycle::families());
+        v.extend(ws_limits::families());
         v
     })
 }
